@@ -854,7 +854,7 @@ fn wf_full_upload(rng: &mut Rng, dir: &PayloadDir, block: u32) -> Vec<Reply> {
 pub fn run_c05(ctx: &Ctx) -> i32 {
     let mut report = ctx.report("C05", "exploration");
     let depth = ctx.by(5usize, 7usize);
-    report.rule = format!("18 streams (17 Sequence impls + feig WriteFile) x every reply script of the form non-final^d final with d < {depth} over the stream's reply alphabet (single-reply streams: every variant), each letter instantiated with canonical values of the variant's type (several per letter, reference-encoded), x junk behind the final packet {{none, a valid packet, random bytes}} x chunking {{whole, byte-wise with a Pending wake-up between chunks}} x partial writes, and once more with every terminal packet (acknowledgement included) in the extended length form CC II FF lo hi; plus random scripts to depth 40; for WriteFile additionally complete uploads (every announced byte of 1-3 small firmware/application files fetched block by block, sequentially or interleaved, optionally probing the end of file) followed by the completion. The terminal releases reply i+1 only after reply i was answered (gate). Oracle: the abstract event log must equal [W(command), Read(ack+r1), W(answer1), Yield(r1), Read(r2), W(answer2), Yield(r2) ... End] and the stream cursor must sit exactly behind the final packet. Non-trivial = script with at least one reply; distinct by hash of (stream, script bytes, junk, chunking).");
+    report.rule = format!("18 streams (17 Sequence impls + feig WriteFile) x every reply script of the form non-final^d final with d < {depth} over the stream's reply alphabet (single-reply streams: every variant), each letter instantiated with canonical values of the variant's type (several per letter, reference-encoded), x junk behind the final packet {{none, a valid packet, random bytes}} x chunking {{whole, byte-wise with a Pending wake-up between chunks}} x partial writes, and once more with every terminal packet (acknowledgement included) in the extended length form CC II FF lo hi; plus random scripts to depth 40; for WriteFile additionally complete uploads (every announced byte of 1-3 small firmware/application files fetched block by block, sequentially or interleaved, optionally probing the end of file) followed by the completion; and for every stream with print lines in its reply set a print line of 65535 / 65534 / ... / 65530 / 32768 / 256 / 255 body bytes in front of the final packet (whole and cut inside its header). The terminal releases reply i+1 only after reply i was answered (gate). Oracle: the abstract event log must equal [W(command), Read(ack+r1), W(answer1), Yield(r1), Read(r2), W(answer2), Yield(r2) ... End] and the stream cursor must sit exactly behind the final packet. Non-trivial = script with at least one reply; distinct by hash of (stream, script bytes, junk, chunking).");
     report.exhaustive = Some(true);
     report.assumptions = vec!["reply sets and final packets per stream: DESIGN Appendix B (refcodec::tables), written from the specification".into(), "commands are obtained by decoding reference encodings (C03 covers that bridge)".into()];
     let schema = refcodec::zvt_schema();
@@ -967,12 +967,48 @@ pub fn run_c05(ctx: &Ctx) -> i32 {
             }
         }
     });
+    // replies at the top of the length range: a print line whose body is 65535 / 65534 / 65531 / 65530 / 32768 / 256 / 255
+    // bytes long, in front of the final packet, for every stream whose reply set has print lines
+    {
+        let schema = &schema;
+        let pools = &pools;
+        let streams: Vec<&'static StreamDef> = STREAMS.iter().filter(|sd| reply_enum(sd.replies).variants.iter().any(|v| v.0 == "PrintLine") && !sd.finals.is_empty()).collect();
+        sharded(&mut report, threads, |shard, r| {
+            let mut rng = Rng::derive(seed, 0xC05_B16 + shard as u64);
+            let mut k = 0usize;
+            for sd in &streams {
+                for body in [65535usize, 65534, 65533, 65532, 65531, 65530, 32768, 256, 255] {
+                    for chunking in [Chunking::Whole, Chunking::Cuts(vec![3 + 1, 3 + 3, 3 + 4, 3 + 5, 3 + 6, 3 + 5 + body / 2])] {
+                        k += 1;
+                        if k % threads != shard {
+                            continue;
+                        }
+                        let mut bytes = vec![0x06, 0xd1, 0xff, body as u8, (body >> 8) as u8, 0x40];
+                        bytes.extend((0..body - 1).map(|i| b'A' + (i % 26) as u8));
+                        let big = Reply { variant: "PrintLine".into(), item_debug: item_debug("PrintLine", "packets::PrintLine", &bytes, "?"), bytes, answer: ACK.to_vec() };
+                        let fin = make_reply(sd, pools, &mut rng, sd.finals[0]);
+                        let cmd = command_for(schema, pools, &mut rng, sd);
+                        let replies = vec![big, fin];
+                        let ex = Exchange { stream: sd.name, cmd_bytes: cmd.clone(), cmd_check: CmdCheck::Exact(cmd.clone()), ack: ACK.to_vec(), replies: replies.clone(), final_at: Some(1), junk: vec![0x80, 0x00, 0x00], chunking: chunking.clone(), pend_between: true, write_chunk: None, fault: None, wf: None };
+                        r.case(fnv(sd.name.as_bytes()) ^ (body as u64) << 20 ^ fnv(format!("{chunking:?}").as_bytes()), true);
+                        r.count("scripts_with_a_reply_at_the_top_of_the_length_range", 1);
+                        ex.check_c05(r, schema, "C05");
+                    }
+                }
+            }
+        });
+    }
     let missing: Vec<&str> = STREAMS.iter().map(|s| s.name).filter(|n| !report.sets.get("streams_seen").map(|s| s.contains(*n)).unwrap_or(false)).collect();
     if !missing.is_empty() {
         report.inconclusive(&format!("streams not exercised: {missing:?}"));
     }
     report.extra.insert("depth".into(), json!(depth));
     report.finish()
+}
+
+/// see run_c06: the acknowledgement position is swept over every control field
+fn c06_ack_sweep(ctx: &Ctx, report: &mut Report, schema: &Schema) {
+    crate::c15::ack_position_sweep(ctx, report, schema, "C06");
 }
 
 /// Malformed bodies for a control field inside the reply set: inputs whose rejection C13/C02 make mandatory.
@@ -1076,7 +1112,7 @@ fn malformed(schema: &Schema, pools: &Pools, rng: &mut Rng, key: &str) -> Vec<(&
 pub fn run_c06(ctx: &Ctx) -> i32 {
     let mut report = ctx.report("C06", "fault_enumeration");
     let depth = ctx.by(4usize, 6usize);
-    report.rule = format!("18 streams x every valid prefix of non-final replies of length <= {depth} x fault kinds {{NACK 84xx in place of a packet (all 256 codes at the acknowledgement position), the same followed by the regular script (a terminal that did not notice), control field outside the reply set, malformed body for a control field inside the set (rejected by the reference decoder as incomplete/duplicate/missing: top-level duplicate tag, value cut short, missing positional field, a later element of a repeated field announcing more than its container holds), packet truncated at every offset followed by end of stream, clean end of stream at the packet boundary}} at every position (the acknowledgement position included), chunking whole / byte-wise; for WriteFile additionally every fault kind right behind (or inside) a complete upload of small firmware/application files. Oracle over the event log: the valid prefix is processed exactly as in C05; after the first faulty byte was delivered there is no write at all, exactly one Err item, then End (no parking). Non-trivial = every fault scenario; distinct by hash of (stream, prefix bytes, fault bytes, position, chunking).");
+    report.rule = format!("18 streams x every valid prefix of non-final replies of length <= {depth} x fault kinds {{NACK 84xx in place of a packet (all 256 codes at the acknowledgement position; in addition every one of the 65535 control fields other than 80 00 as a bare packet in place of the acknowledgement, with the regular script queued behind it), the same followed by the regular script (a terminal that did not notice), control field outside the reply set, malformed body for a control field inside the set (rejected by the reference decoder as incomplete/duplicate/missing: top-level duplicate tag, value cut short, missing positional field, a later element of a repeated field announcing more than its container holds), packet truncated at every offset followed by end of stream, clean end of stream at the packet boundary}} at every position (the acknowledgement position included), chunking whole / byte-wise; for WriteFile additionally every fault kind right behind (or inside) a complete upload of small firmware/application files. Oracle over the event log: the valid prefix is processed exactly as in C05; after the first faulty byte was delivered there is no write at all, exactly one Err item, then End (no parking). Non-trivial = every fault scenario; distinct by hash of (stream, prefix bytes, fault bytes, position, chunking).");
     report.exhaustive = Some(true);
     report.assumptions = vec!["malformed bodies are restricted to those whose rejection follows from C02/C13/C14 (top-level duplicate tag, value cut short, missing positional field, a later element of a repeated field overrunning its container)".into()];
     let schema = refcodec::zvt_schema();
@@ -1215,6 +1251,7 @@ pub fn run_c06(ctx: &Ctx) -> i32 {
     if !missing.is_empty() {
         report.inconclusive(&format!("streams not exercised: {missing:?}"));
     }
+    c06_ack_sweep(ctx, &mut report, &schema);
     report.extra.insert("depth".into(), json!(depth));
     report.finish()
 }
